@@ -20,7 +20,8 @@ LEVEL_TEXT = ("(a) All grammar keywords (frozen list of 87 + whatever the workin
               " Keyword-named columns are also placed after a column that carries a CHECK clause."
               " Since wave 5 there are 17 naming positions (the in-table KEY name (col) clause) and 21 identifier forms, incl. names that begin with '#', with the letters array / Arrays / ARRAY_, keyword-shaped names per position, a quoted name containing a dot."
               ' Defect hunt: bracket / backtick names that contain a blank (known finding).'
-              ' Wave 6: names whose inner text ends with the doubled delimiter ([Amount[USD]]], `x```).')
+              ' Wave 6: names whose inner text ends with the doubled delimiter ([Amount[USD]]], `x```).'
+              ' Wave 7: identifiers of every length 4..130 (thorough ..300) per delimiter style; 8 dialect scripts whose clauses copy names to dialect-specific places (Redshift distkey / sortkey as column attribute and table clause, Hive partition / cluster / sort / skew columns, Snowflake / BigQuery cluster and partition columns, Oracle tablespace, SQL Server clustered key and file group, PostgreSQL parent table), each under its owning output mode and the default mode, every identifier form in one position at a time and in all positions.')
 LEVEL_NOTE = ("Identifier forms: lower, Mixed, UPPER, x_1, \"Dq\", `bt`, [br]. Spelling is identical between a declaration and the clauses that "
               "cite it. The plain-name result is itself validated against explicit JSON paths once per run.")
 RULE = ("case = (keyword, case, position, context, listing) or (form assignment to naming positions, normalize flag); non-trivial = the "
@@ -58,6 +59,25 @@ SCRIPT = ("CREATE TABLE {S}.{T} ({C1} int, {C2} varchar(5), {C3} int, CONSTRAINT
           "CREATE SEQUENCE {S}.{Q} START 1;\n"
           "CREATE TYPE {S}.{TY} AS ENUM ('a');\n"
           "CREATE DOMAIN {S}.{D} AS varchar(3);\n")
+# wave 7: the places a DIALECT copies names to (sort / distribution keys, partition / cluster / bucket columns, tablespace, file group,
+# parent table), each under its owning output mode and under the default mode
+DSCRIPTS = [
+    ("redshift", "CREATE TABLE {S}.{T} ({C1} int distkey, {C2} varchar(5) encode zstd, {C3} int) diststyle key compound sortkey({C2}, {C3});"),
+    ("redshift", "CREATE TABLE {S}.{T} ({C1} int, {C2} varchar(5), {C3} int) diststyle key distkey({C1}) interleaved sortkey({C2},{C3});"),
+    ("hql", "CREATE EXTERNAL TABLE {S}.{T} ({C1} int, {C2} varchar(5), {C3} int) PARTITIONED BY ({K1} string, {K2} int) CLUSTERED BY ({C1}, {C2}) "
+            "SORTED BY ({C3}) INTO 4 BUCKETS SKEWED BY ({C1}) ON (1) STORED AS ORC;"),
+    ("snowflake", "CREATE TABLE {S}.{T} ({C1} int, {C2} varchar(5), {C3} int) CLUSTER BY ({C1}, {C2});"),
+    ("bigquery", "CREATE TABLE {S}.{T} ({C1} int, {C2} varchar(5), {C3} int) PARTITION BY {C3} CLUSTER BY {C1}, {C2};"),
+    ("oracle", "CREATE TABLE {S}.{T} ({C1} int, {C2} varchar(5), {C3} int) PARTITION BY HASH ({C1}) TABLESPACE {K1};"),
+    ("mssql", "CREATE TABLE {S}.{T} ({C1} int, {C2} varchar(5), {C3} int, CONSTRAINT {K1} PRIMARY KEY CLUSTERED ({C1} ASC, {C2} DESC)) ON {K2};"),
+    ("postgres", "CREATE TABLE {S}.{T} ({C1} int, {C2} varchar(5), {C3} int) INHERITS ({RS}.{RT}) PARTITION BY RANGE ({C3});"),
+]
+# how often each name must occur in the plain-name result of the script (owning mode); validated once per worker
+DCOUNT = [{"S": 1, "T": 1, "C1": 2, "C2": 2, "C3": 2}, {"S": 1, "T": 1, "C1": 2, "C2": 2, "C3": 2},
+          {"S": 1, "T": 1, "C1": 3, "C2": 2, "C3": 2, "K1": 1, "K2": 1}, {"S": 1, "T": 1, "C1": 2, "C2": 2, "C3": 1},
+          {"S": 1, "T": 1, "C1": 2, "C2": 2, "C3": 2}, {"S": 1, "T": 1, "C1": 2, "C2": 1, "C3": 1, "K1": 1},
+          {"S": 1, "T": 1, "C1": 4, "C2": 4, "C3": 1, "K1": 1, "K2": 1}, {"S": 1, "T": 1, "C1": 1, "C2": 1, "C3": 2, "RS": 1, "RT": 1}]
+
 # explicit paths of every naming position in the plain-name result (validated once per worker)
 PATHS = {
     "S": [(0, "schema"), (1, "schema"), (2, "schema"), (3, "schema")], "T": [(0, "table_name")],
@@ -152,6 +172,13 @@ def gen_cases(tier):
             for p in POS:
                 cases.append({"kind": "id", "assign": {p: "len:%d" % n}, "nn": nn})
                 cases.append({"kind": "id", "assign": {p: "dqlen:%d" % n}, "nn": nn})
+        for di in range(len(DSCRIPTS)):
+            for mode in (DSCRIPTS[di][0], "sql"):
+                cases.append({"kind": "idm", "d": di, "mode": mode, "assign": {}, "nn": nn})
+                for f in FORMS[1:]:
+                    cases.append({"kind": "idm", "d": di, "mode": mode, "assign": {p: f for p in DCOUNT[di]}, "nn": nn})
+                    for p in DCOUNT[di]:
+                        cases.append({"kind": "idm", "d": di, "mode": mode, "assign": {p: f}, "nn": nn})
         if tier == "thorough":
             for p, q in itertools.combinations(POS, 2):
                 for f, g in itertools.product(FORMS[1:], repeat=2):
@@ -161,7 +188,29 @@ def gen_cases(tier):
 
 def render_id(case):
     names = {p: form(BASE[p], case["assign"].get(p, "lower")) for p in POS}
+    if case["kind"] == "idm":
+        return DSCRIPTS[case["d"]][1].format(**names), names
     return SCRIPT.format(**names), names
+
+
+def count_leaves(v, s):
+    if isinstance(v, dict):
+        return sum(count_leaves(x, s) for x in v.values())
+    if isinstance(v, list):
+        return sum(count_leaves(x, s) for x in v)
+    return 1 if v == s else 0
+
+
+def dbase_result(di, mode, nn):
+    k = (di, mode, nn)
+    if k not in _BASE:
+        r = run_ddl(DSCRIPTS[di][1].format(**BASE), {"normalize_names": nn}, {"output_mode": mode})
+        ok = r[0] == "ok" and len(r[1]) == 1 and is_table(r[1][0])
+        bad = []
+        if ok and mode != "sql":
+            bad = [[p, n, count_leaves(r[1], BASE[p])] for p, n in DCOUNT[di].items() if count_leaves(r[1], BASE[p]) < n]
+        _BASE[k] = (r, ok, bad)
+    return _BASE[k]
 
 
 def get(v, path):
@@ -260,6 +309,22 @@ def evaluate(case):
                     diffs.append(diff("constraints.uniques[0].columns", "keyword-in-key-list", [other, name], u))
         return {"diffs": diffs, "nontrivial": True, "outcome": "kw"}
     nn = case["nn"]
+    if case["kind"] == "idm":
+        br, ok, bad = dbase_result(case["d"], case["mode"], nn)
+        if not ok:
+            return {"diffs": [diff("plain-name dialect script", "base-not-parsed", "1 table", short(br, 300))], "outcome": "base"}
+        if bad:
+            return {"diffs": [diff("plain-name dialect script", "base-path-mismatch", "every name at least [position, n] times", bad[:4])], "outcome": "base"}
+        ddl, names = render_id(case)
+        r = run_ddl(ddl, {"normalize_names": nn}, {"output_mode": case["mode"]})
+        if r[0] != "ok":
+            return {"diffs": [diff("run", "raises", "result", r[1:3])], "outcome": "exc"}
+        mapping = {BASE[p]: (strip1(names[p]) if nn else names[p]) for p in DCOUNT[case["d"]]}
+        want = subst(br[1], mapping)
+        if r[1] != want:
+            diffs.append(vdiff("output_mode=%s, normalize_names=%s, forms %s" % (case["mode"], nn, json.dumps(case["assign"])),
+                               "entity-count" if len(r[1]) != len(want) else "identifier-differs", want, r[1]))
+        return {"diffs": diffs, "nontrivial": bool(case["assign"]), "outcome": "idm:%s:%s" % (case["mode"], nn)}
     br, ok, bad = base_result(nn)
     if not ok:
         return {"diffs": [diff("plain-name script", "base-not-parsed", "4 entities", short(br, 300))], "outcome": "base"}
@@ -281,13 +346,13 @@ def evaluate(case):
 
 def features(case):
     f = []
-    if case["kind"] == "id":
+    if case["kind"] in ("id", "idm"):
         for p, fm in case["assign"].items():
             if fm in ("dq", "bt", "br", "dq_us", "br_us", "dq_sp", "bt_dbl", "br_dbl", "bt_dash", "dq_dot", "br_edge", "bt_edge"):
                 f.append("delimited:" + p)
             if fm in ("dq_nest", "bt_nest"):
                 f.append("delimited:nested-delimiters")
-            if fm == "kw" and p == "C1":
+            if fm == "kw" and p == "C1" and case["kind"] == "id":
                 f.append("kw-name:cited-by-alter-or-index-statement")
             if fm in ("br_sp", "bt_sp"):
                 f.append("delimited:bracket-or-backtick-with-blank")
@@ -299,10 +364,14 @@ def features(case):
 def describe(case):
     if case["kind"] == "kw":
         return {"ddl": kw_ddl(case)[0]}
+    if case["kind"] == "idm":
+        return {"ddl": render_id(case)[0], "normalize_names": case["nn"], "output_mode": case["mode"]}
     return {"ddl": render_id(case)[0], "normalize_names": case["nn"]}
 
 
 def snippet(case):
     if case["kind"] == "kw":
         return _snip(kw_ddl(case)[0])
+    if case["kind"] == "idm":
+        return _snip(render_id(case)[0], {"normalize_names": case["nn"]}, {"output_mode": case["mode"]})
     return _snip(render_id(case)[0], {"normalize_names": case["nn"]})
